@@ -53,6 +53,7 @@ def parseable(a):
 
 ADDRS = ["2001:db8:dead:beef::2", "2001:db8::1", "::2", "::ffff:203.0.113.7", "192.0.2.8", "10.0.0.1", "10.255.255.255", "11.0.0.0", "9.255.255.255", "192.0.2.7", "127.0.0.1", "::1", "2001:db8::1",
          "2001:db8:ffff:ffff:ffff:ffff:ffff:ffff", "2001:db9::", "fe80::1%eth0", "not-an-ip", "", "1.2.3", "::ffff:10.0.0.1"]
+TWINS = ["0.0.0.1", "0.0.0.2", "::a00:1", "::c000:207", "::7f00:1", "0.0.0.0", "::"]      # same integer, other family
 LISTS = [None, [], ["2001:db8::1"], ["::1", "127.0.0.1"], ["10.0.0.0/8"], ["192.0.2.7"], ["2001:db8::/32"], ["10.0.0.0/8", "2001:db8::/32"], ["::1"], ["0.0.0.0/0"], ["127.0.0.0/8", "::1"]]
 
 
@@ -148,7 +149,10 @@ def replay_policy(model):
             ac = mw.AccessControl(mw.AccessControlConfig(allow_list=al, deny_list=dl, default_allow=default))
         except ValueError:
             continue
-        for addr in ADDRS:
+        # ONE AccessControl object answers a whole sequence of peers (as in a running server): an earlier decision must
+        # not colour a later one - the sequence contains addresses of the two families with the same integer value
+        seq = ADDRS + TWINS + list(reversed(ADDRS + TWINS))
+        for addr in seq:
             tried += 1
             want = oracle(al, dl, default, addr)
             try:
@@ -158,7 +162,7 @@ def replay_policy(model):
                 return dict(confirmed=True, input=dict(allow_list=al, deny_list=dl, default_allow=default, peer=addr), observed="raised " + repr(e))
             ok_resp = (resp is None) if allow else (isinstance(resp, str) and resp.startswith("53 ") and resp.endswith("\r\n") and "\n" not in resp[:-2] and "\r" not in resp[:-2])
             if got != want or allow != want or not ok_resp:
-                return dict(confirmed=True, input=dict(allow_list=al, deny_list=dl, default_allow=default, peer=addr),
+                return dict(confirmed=True, input=dict(allow_list=al, deny_list=dl, default_allow=default, peer=addr, earlier_peers_on_the_same_object=seq[:seq.index(addr)][-6:]),
                             observed=dict(is_allowed=got, process_request=(allow, resp), policy=want),
                             clause="admitted exactly when no deny entry contains the address and (an allow entry contains it or no allow list and default allow)")
     # entries that cannot be interpreted must prevent start-up
